@@ -19,7 +19,7 @@ func init() {
 	property("C13",
 		"Static conformance of constant substitution: (a) every token literal that is accumulated into an argument, operand, comparison value, case value, table-entry field, mart item or constant value passes through tryReplaceWithConstant (the only exceptions are literal parentheses); (b) names (identifiers, labels, map script names, movement steps) and text are never passed through it; (c) a constant is stored only after the duplicate check, its value is scanned up to the next top-level keyword; (d) the helper is a pure lookup that returns its argument when the name is not a constant.",
 		[]string{"that textual and token-wise replacement coincide for multi-token values is not decided"},
-		"C13.a", "C13.b", "C13.c", "C13.d", "C10.a", "C20.c")
+		"C13.a", "C13.b", "C13.c", "C13.d", "C10.a", "C14.c", "C20.c")
 	property("C14",
 		"Static conformance of list handling: (a) a movement multiplier is accepted exactly in [1, 9999], must be an INT, and expands to exactly that many copies; (b) the movement emitter writes the terminator exactly once on every path and nothing after it; (c) the mart emitter writes '.align 2' first, stops at the first item equal to ITEM_NONE — tested on the very value it would write — and writes the terminator once, unconditionally, after the loop; items and their tokens are parallel; (d) list parsers append each identifier once and advance on every iteration.",
 		[]string{"go/ssa lowering is faithful to the source"},
